@@ -97,10 +97,8 @@ static const int fe_errs[] = { ECONNREFUSED, EWOULDBLOCK, EIO, EINTR, ENOSYS };
 #define FE_SLOTS (FE_MAXK * FE_NERR)
 #define FE_KINDS 12
 
-static void gen_scenario(int scn)
+static void gen_scenario_kv(int kind, int variant)
 {
-  int      kind    = scn % FE_KINDS;
-  int      variant = scn / FE_KINDS;
   vh_rng_t vr;
   int      i, ti;
   vh_rng_seed(&vr, 0xfa17u + (uint64_t)variant * 7919u);
@@ -218,14 +216,111 @@ static void gen_scenario(int scn)
       }
       SCN_TOK(RK_SEARCH, "a10", 1, 0);
       break;
-    default: /* 11: TCP reset then retry */
+    case 11: /* TCP reset then retry */
       app_cfg.flags |= ARES_FLAG_USEVC;
       memset(sim_srv[app_cfg.srv_cfg[0]].w_tcp, 0, sizeof(sim_srv[0].w_tcp));
       sim_srv[app_cfg.srv_cfg[0]].w_tcp[SA_RESET] = 1;
       SCN_TOK(RK_QUERY_DNSREC, "a11.example.com", 1, 0);
       break;
+    /* ---- kinds used by the allocation-failure enumeration only (C14) ---- */
+    case 12: /* cache fill, then cache hits through three entry points */
+      app_cfg.qcache_max_ttl = 3600;
+      SCN_TOK(RK_QUERY_DNSREC, "a12.example.com", 1, 0);
+      SCN_TOK(RK_QUERY_DNSREC, "a12.example.com", 1, 100000);
+      SCN_TOK(RK_QUERY, "a12.example.com", 1, 200000);
+      SCN_TOK(RK_GETHOSTBYNAME, "a12.example.com", 1, 300000);
+      app_tok[ti].family = AF_INET;
+      break;
+    case 13: /* hosts file: forward, both families, reverse, aliases */
+      snprintf(app_cfg.hosts_content, sizeof(app_cfg.hosts_content),
+               "10.1.2.3 h13.example.com h13 alias13\nfd00::13 h13.example.com h13\n127.0.0.1 localhost\n::1 localhost\n");
+      snprintf(app_cfg.lookups, sizeof(app_cfg.lookups), "fb");
+      SCN_TOK(RK_GETADDRINFO, "h13.example.com", 1, 0);
+      app_tok[ti].family = AF_UNSPEC;
+      SCN_TOK(RK_GETHOSTBYNAME, "alias13", 1, 1000);
+      app_tok[ti].family = AF_INET;
+      SCN_TOK(RK_GETHOSTBYADDR, "", 1, 2000);
+      app_tok[ti].family = AF_INET;
+      app_tok[ti].addr[0] = 10; app_tok[ti].addr[1] = 1; app_tok[ti].addr[2] = 2; app_tok[ti].addr[3] = 3;
+      SCN_TOK(RK_GETADDRINFO, "localhost", 1, 3000);
+      app_tok[ti].family = AF_UNSPEC;
+      break;
+    case 14: /* reverse lookups on the wire */
+      SCN_TOK(RK_GETHOSTBYADDR, "", 1, 0);
+      app_tok[ti].family = AF_INET;
+      app_tok[ti].addr[0] = 192; app_tok[ti].addr[1] = 0; app_tok[ti].addr[2] = 2; app_tok[ti].addr[3] = 14;
+      SCN_TOK(RK_GETNAMEINFO, "", 1, 1000);
+      app_tok[ti].family = AF_INET6;
+      app_tok[ti].addr[0] = 0x20; app_tok[ti].addr[1] = 0x01; app_tok[ti].addr[2] = 0x0d; app_tok[ti].addr[3] = 0xb8; app_tok[ti].addr[15] = 0x14;
+      break;
+    case 15: /* reinit with requests in flight, then more */
+      sim_srv[app_cfg.srv_cfg[0]].delay_min_ms = sim_srv[app_cfg.srv_cfg[0]].delay_max_ms = 50;
+      SCN_TOK(RK_QUERY, "a15.example.com", 1, 0);
+      gen_add_action(10000, AA_REINIT, 0, 0);
+      SCN_TOK(RK_QUERY_DNSREC, "b15.example.com", 28, 20000);
+      break;
+    case 16: /* duplicate, save options, read servers, sortlist */
+      snprintf(app_cfg.sortlist, sizeof(app_cfg.sortlist), "10.0.0.0/8 fd5e::/16");
+      app_cfg.ndomains = 2;
+      snprintf(app_cfg.domains[0], sizeof(app_cfg.domains[0]), "one.test");
+      snprintf(app_cfg.domains[1], sizeof(app_cfg.domains[1]), "two.test");
+      SCN_TOK(RK_QUERY, "a16.example.com", 1, 0);
+      gen_add_action(1000, AA_DUP, 0, 1);
+      gen_add_action(2000, AA_SET_SORTLIST, 0, 0);
+      gen_add_action(3000, AA_READONLY, 0, 0);
+      break;
+    case 17: /* destroy with requests outstanding */
+      sim_srv[app_cfg.srv_cfg[0]].delay_min_ms = sim_srv[app_cfg.srv_cfg[0]].delay_max_ms = 50;
+      SCN_TOK(RK_QUERY, "a17.example.com", 1, 0);
+      SCN_TOK(RK_GETADDRINFO, "b17.example.com", 1, 0);
+      app_tok[ti].family = AF_UNSPEC;
+      SCN_TOK(RK_SEARCH, "c17.example.com", 1, 0);
+      app_sched.destroy_at_step = 3;
+      break;
+    case 18: /* search through two domains, legacy entry points, NODATA */
+      app_cfg.ndomains = 2;
+      snprintf(app_cfg.domains[0], sizeof(app_cfg.domains[0]), "one.test");
+      snprintf(app_cfg.domains[1], sizeof(app_cfg.domains[1]), "two.test");
+      app_cfg.ndots = 1;
+      {
+        sim_rule_t *r = &sim_srv[app_cfg.srv_cfg[0]].rules[0];
+        memset(r, 0, sizeof(*r));
+        snprintf(r->name, sizeof(r->name), "a18.one.test");
+        r->action = SA_NODATA;
+        r->ttl    = 60;
+        sim_srv[app_cfg.srv_cfg[0]].nrules = 1;
+      }
+      SCN_TOK(RK_SEARCH_DNSREC, "a18", 1, 0);
+      SCN_TOK(RK_SEND, "b18.example.com", 16, 1000);
+      SCN_TOK(RK_GETHOSTBYNAME, "c18", 1, 2000);
+      app_tok[ti].family = AF_UNSPEC;
+      break;
+    default: /* 19: many options at init, answers with many records and a CNAME chain */
+      app_cfg.local_bind      = 1;
+      app_cfg.udp_max_queries = 2;
+      app_cfg.maxtimeout_ms   = 2000;
+      app_cfg.failover_set    = 1;
+      app_cfg.failover_chance = 10;
+      app_cfg.failover_delay_ms = 1000;
+      app_cfg.rotate          = 1;
+      app_cfg.qcache_max_ttl  = 60;
+      app_cfg.flags |= ARES_FLAG_DNS0x20;
+      snprintf(app_cfg.sortlist, sizeof(app_cfg.sortlist), "192.168.0.0/16");
+      sim_srv[app_cfg.srv_cfg[0]].default_nrec = 12;
+      sim_srv[app_cfg.srv_cfg[1]].default_nrec = 12;
+      SCN_TOK(RK_GETADDRINFO, "a19.example.com", 1, 0);
+      app_tok[ti].family = AF_UNSPEC;
+      app_tok[ti].port   = 443;
+      SCN_TOK(RK_QUERY_DNSREC, "b19.example.com", 15, 1000);
+      SCN_TOK(RK_QUERY_DNSREC, "c19.example.com", 16, 1000);
+      break;
   }
 #undef SCN_TOK
+}
+
+static void gen_scenario(int scn)
+{
+  gen_scenario_kv(scn % FE_KINDS, scn / FE_KINDS);
 }
 
 static void run_faultenum(uint64_t idx)
@@ -617,6 +712,8 @@ static void run_transport(vh_rng_t *rng)
 #include "sim_health.h"
 #include "sim_cookie.h"
 
+#include "sim_oom.h"
+
 static int profile_run(const char *profile, vh_rng_t *rng, uint64_t idx)
 {
   (void)idx;
@@ -667,6 +764,10 @@ static int profile_run(const char *profile, vh_rng_t *rng, uint64_t idx)
     gen_sockets(rng);
     run_generic(rng);
     fd_fingerprint();
+    return 1;
+  }
+  if (!strcmp(profile, "oom")) {
+    run_oom(idx);
     return 1;
   }
   if (!strcmp(profile, "faultenum")) {
